@@ -822,6 +822,24 @@ def no_tolerance_shortcut(chk, repo, pid):
     NARROW_CODES = {'f4', 'c8', 'f2', '<f4', '<c8', 'float32', 'complex64', 'float16'}
     # frozen exceptions (one reason each): the cosmic-ray tracer works on float32 ray coordinates by design upstream
     NARROW_OK = {'detector._cubeplane_ray_intersection', 'detector._process_cube_intersections'}
+    # ... helpers introduced later that only those functions (or such helpers) call belong to the same tracer
+    from ..interp import known_functions as _kfp
+    from ..model import FuncInfo as _FI
+    callers = {}
+    for g in repo.all_functions():
+        for node in ast.walk(g.node):
+            if isinstance(node, ast.Call):
+                d_ = dotted(node.func)
+                t_ = repo.resolve_name(g.module, d_) if d_ and d_.split('.')[0] not in ('self', 'cls') else None
+                if isinstance(t_, _FI):
+                    callers.setdefault(t_.key, set()).add(g.key)
+    NARROW_OK = set(NARROW_OK)
+    # a tracer that was renamed / merged keeps its role: new private functions of the module called from the cosmic-ray code only
+    roots = {'detector._cosmic_ray', 'detector._propagate_ray', 'detector.cosmic_rays'} | NARROW_OK
+    for _ in range(4):
+        for k_, cs in callers.items():
+            if k_ not in _kfp() and k_ not in NARROW_OK and cs and cs <= (NARROW_OK | roots) and k_.startswith('detector._'):
+                NARROW_OK.add(k_)
     badp = []
     for f in repo.all_functions():
         if f.module.name not in mods or f.key in NARROW_OK:
@@ -1046,6 +1064,8 @@ def sequence_arithmetic_rule(chk, repo, clause, mods):
                 l, r = whole(node.left), whole(node.right)
                 other_seq = (l and r) or (l and isinstance(node.right, (ast.Tuple, ast.List, ast.Constant))) or \
                     (r and isinstance(node.left, (ast.Tuple, ast.List, ast.Constant)))
+                if l and r and l == r:
+                    continue            # x[1:] - x[:-1]: differences of one array with itself (it has been converted by then)
                 if other_seq and isinstance(node.op, (ast.Mult, ast.Add)) or (l and r):
                     bad.append(f'{f.key}: `{f.module.segment(node)[:50]}` at {f.loc(node)}')
     chk.ob(clause, 'T-sequence', 'lentil.' + '/'.join(mods), 'array_like parameters enter arithmetic item by item or through np.asarray, never as whole sequences',
